@@ -270,14 +270,19 @@ class bin_stream_container(bin_stream):
             raise IOError("not enough bytes")
         if self.offset < 0:
             raise IOError("Negative offset")
+        data = self._getbytes(self.offset, l)
         self.offset += l
-        return self.bin.virt.get(self.offset - l, self.offset)
+        return data
 
     def _getbytes(self, start, l=1):
         try:
-            return self.bin.virt.get(start, start + l)
+            data = self.bin.virt.get(start, start + l)
         except ValueError:
             raise IOError("cannot get bytes")
+        if len(data) != l:
+            # The container truncates a read at the end of its image
+            raise IOError("cannot get bytes")
+        return data
 
     def __bytes__(self):
         return self.bin.virt.get(self.offset, self.offset + self.l)
